@@ -1082,6 +1082,13 @@ def canonical(T: float) -> List[dict]:
         # … the preface arrives after the connection has been idle for 0.6 T
         {**base, "name": "h2_prior_late_preface", "proto": "h2", "h2_via": "prior", "client": [["sleep", 0.6 * T], ["h2preface"], ["h2req", "/r0", None, True]], "apps": [resp]},
     ]
+    # the first bytes of the NEXT request's head arrive before the current response is complete (the application answers after
+    # min(0.5 s, T / 2)) - in a read of their own or in the read that carried the first request - cut at every point of the head
+    later = app_script("sleep_respond", min(0.5, T / 2))
+    cuts = range(1, len(h1)) if T == 1 else sorted({1, 4, len(h1) // 2, len(h1) - 3, len(h1) - 1})
+    for cut in cuts:
+        out.append({**base, "name": f"pipelined_partial_head@{cut}", "client": [["send", h0], ["send", h1[:cut]]], "apps": [later]})
+        out.append({**base, "name": f"pipelined_partial_head_one_read@{cut}", "client": [["send", h0 + h1[:cut]]], "apps": [later]})
     return out
 
 
